@@ -115,7 +115,8 @@ PROBE_F = "program p\n  print *, 'FORTRAN_OK'\nend program p\n"
 
 # (key, family, placement kind, script expression, checker name, languages)
 C_STDS = [('c99', 199901), ('c11', 201112), ('c17', 201710), ('gnu11', 201112)]
-CXX_STDS = [('c++11', 201103), ('c++14', 201402), ('c++17', 201703), ('c++20', 202002)]
+CXX_STDS = [('c++11', 201103), ('c++14', 201402), ('c++17', 201703), ('c++20', 202002), ('gnu++11', 201103),
+            ('gnu++14', 201402)]
 
 
 def option_table(lang):
